@@ -1122,8 +1122,7 @@ func (ex *Exec) implied(t *Term) bool {
 	if ex.unsatCache[neg.id] {
 		return true
 	}
-	ex.flush()
-	r := ex.solver.CheckWith(neg)
+	r := ex.checkWith(neg)
 	if r == Unsat {
 		ex.unsatCache[neg.id] = true
 		return true
